@@ -200,7 +200,7 @@ def gen_dest(rng):
                       "sub/a.md", "a.txt", "a.png", "#a", "#", "", "mailto:x", "inv:#f", "inv:k:py:func#f", "inv:k#*",
                       "path:a.txt", "project:a.md", "project:#a", "project:", "path:", "wiki:Page#frag", "x:y", "ftp://h/p",
                       "/abs.md", "//x", "a b", "<a b>", "a%20b.md", "é.md", "a\\b", "?q", "a.md#", "a.md#a#b", "%", "%zz",
-                      "http://[::1", "http://x.org:99999/", "javascript:x", "data:,x", "file:///etc/passwd",
+                      "http://[::1", "inv://[#x", "inv://[::1#f", "wiki://[x", "http://x.org:99999/", "javascript:x", "data:,x", "file:///etc/passwd",
                       "x" * 300 + ".md", "a/" * 200 + "b.md", "\x7f", "a.md\\#x", "&amp;", "a|b", "a\"b", "..", ".", "/"])
 
 
@@ -225,19 +225,42 @@ def indent(text, prefix):
     return "\n".join((prefix + ln if ln else prefix.rstrip()) for ln in text.split("\n"))
 
 
+_SPEC_CACHE = {}
+
+
+def spec_keys(name):
+    """option names of the registered directive (docutils / Sphinx registries), [] when unknown."""
+    if name not in _SPEC_CACHE:
+        keys = []
+        try:
+            from docutils.parsers.rst import directives
+            from docutils.parsers.rst.languages import en
+            from docutils.utils import new_document
+            cls, _ = directives.directive(name, en, new_document("<gen>"))
+            keys = sorted((cls.option_spec or {}).keys()) if cls is not None else []
+        except Exception:
+            keys = []
+        _SPEC_CACHE[name] = keys
+    return _SPEC_CACHE[name]
+
+
 def gen_options_colon(rng, name):
     lines = []
+    own = spec_keys(name)
     for _ in range(rng.randint(0, 3)):
-        lines.append(f":{pick(rng, OPTION_KEYS)}: {pick(rng, OPTION_VALUES)}")
+        key = pick(rng, own) if own and rng.random() < 0.6 else pick(rng, OPTION_KEYS)
+        lines.append(f":{key}: {pick(rng, OPTION_VALUES)}")
     if rng.random() < 0.08:
         lines.append(pick(rng, [":", "::", ": x", ":a", ":a:b", " :class: x", ":class:x", ":class", ":\tclass: x"]))
     return "\n".join(lines)
 
 
-def gen_options_yaml(rng):
+def gen_options_yaml(rng, name=""):
     body = []
+    own = spec_keys(name) if name else []
     for _ in range(rng.randint(0, 3)):
-        body.append(f"{pick(rng, OPTION_KEYS)}: {pick(rng, OPTION_VALUES)}")
+        key = pick(rng, own) if own and rng.random() < 0.6 else pick(rng, OPTION_KEYS)
+        body.append(f"{key}: {pick(rng, OPTION_VALUES)}")
     if rng.random() < 0.2:
         body.append(pick(rng, YAML_BAD))
     closer = pick(rng, ["---", "---", "----", "---x", "", "--- "])
@@ -288,7 +311,7 @@ def gen_directive(rng, depth, sphinx, files):
             if rng.random() < 0.7:
                 parts.append("")
     elif o < 0.6:
-        parts.append(gen_options_yaml(rng))
+        parts.append(gen_options_yaml(rng, name))
     if name == "eval-rst":
         parts.append(gen_rst(rng, files))
     elif name in ("csv-table",):
